@@ -21,6 +21,13 @@ BASES = {
         ("service", "Svc", 1, (("get", 0, "S", "A"),)),
         ("device", "ecu", (("services", [("id", "Svc")]), ("addr", 7))),
     ],
+    "bind": [
+        ("struct", "S", (("x", 0, U(8), None, None), ("y", 1, I(16), None, None))),
+        ("impl", "can", "S", None, (("id", 5), ("bus", "b2")), (("y", (("endianess", "big"),)),)),
+        ("impl", "uart", "S", "Su", (("baud", 9600),), ()),
+        ("struct", "T", (("s", 0, ("ref", "S"), None, None),)),
+        ("impl", "can", "T", None, (("id", 6),), ()),
+    ],
     "flat": [
         ("struct", "P", (("x", 0, U(8), None, None),)),
         ("struct", "Q", (("y", 0, Arr(("ref", "P"), 2), None, None),)),
